@@ -12,7 +12,8 @@
 (*   recv                a consumer takes the token (non-blocking here)    *)
 (* pushx / popx are the two halves back to back (no gate); pushn / popn are *)
 (* k such calls issued back to back by one goroutine (a burst); gateall     *)
-(* releases every call standing at a gate at once (their signals commute).  *)
+(* releases every call standing at a gate at once (their signals commute);  *)
+(* len is Len() (one mutex hold, changes nothing).                          *)
 (* Only the length matters for wake-ups; the order of items is C12.        *)
 (*                                                                         *)
 (* WakeInv is the property as stated: whenever the queue is non-empty, no  *)
@@ -80,6 +81,7 @@ Replies(a) ==
     [] a.op = "pushn" -> {R("ok", MinOf(a.k, wcap - n))}         \* v: how many were accepted
     [] a.op = "popn"  -> {R("item", MinOf(a.k, n))}              \* v: how many items came out
     [] a.op = "gateall" -> {R("ok", Cardinality(AtGate(S)))}
+    [] a.op = "len"   -> {R("len", n)}
     [] OTHER -> {}
 
 Do(a) ==
@@ -91,6 +93,7 @@ Do(a) ==
     [] a.op = "pushn" -> pst[a.p] = "idle" /\ Install(PushN(S, a.p, a.k))
     [] a.op = "popn"  -> pst[a.p] = "idle" /\ Install(PopN(S, a.p, a.k))
     [] a.op = "gateall" -> Install(GateAll(S))
+    [] a.op = "len"   -> pst[a.p] = "idle" /\ UNCHANGED wvars
     [] a.op = "recv"  -> /\ pst[a.p] = "idle"
                          /\ IF sig = 1 THEN Install([S EXCEPT !.sig = 0, !.tok[a.p] = TRUE])
                                        ELSE UNCHANGED wvars
@@ -107,7 +110,7 @@ InitWith(c) ==
 CONSTANT WCaps
 Acts == [op : {"push", "pushx", "pop", "popx", "gate", "recv"}, p : Procs]
    \cup [op : {"pushn", "popn"}, p : Procs, k : {2, 3}]
-   \cup [op : {"gateall"}]
+   \cup [op : {"gateall"}] \cup [op : {"len"}, p : Procs]
 Init == \E c \in WCaps : InitWith(c)
 Next == \E a \in Acts : \E r \in Replies(a) : Step(a, r)
 Spec == Init /\ [][Next]_allwvars
